@@ -102,7 +102,7 @@ func main() {
 	}
 	selfFail := false
 	if *tier == "thorough" {
-		selfFail = runControls(*repo, *prop, pr, res)
+		selfFail = runControls(*repo, *verif, *prop, pr, res)
 		if runRefactorings(*repo, *verif, *prop, pr, res) {
 			selfFail = true
 		}
@@ -163,7 +163,7 @@ func envOr(k, d string) string {
 // runControls applies each control mutant of the property in memory and
 // requires its rule to report it. Returns true if an applicable control
 // went undetected.
-func runControls(repo, prop string, pr *rules.Prop, res *core.Result) bool {
+func runControls(repo, verif, prop string, pr *rules.Prop, res *core.Result) bool {
 	type outcome struct {
 		Name, File, Rule, Result string
 	}
@@ -177,16 +177,23 @@ func runControls(repo, prop string, pr *rules.Prop, res *core.Result) bool {
 			continue
 		}
 		abs := filepath.Join(repo, ct.File)
-		src, err := os.ReadFile(abs)
+		ov, err := baseOverlay(repo, verif, rules.ControlBases[ct.Name])
 		if err != nil {
 			continue
+		}
+		src, ok := ov[abs]
+		if !ok {
+			if src, err = os.ReadFile(abs); err != nil {
+				continue
+			}
 		}
 		re, err := regexp.Compile("(?s)" + ct.Old)
 		if err != nil || len(re.FindAllIndex(src, -1)) != 1 {
 			continue
 		}
+		ov[abs] = re.ReplaceAll(src, []byte(ct.New))
 		ctlOverlay[ci] = len(overlays)
-		overlays = append(overlays, map[string][]byte{abs: re.ReplaceAll(src, []byte(ct.New))})
+		overlays = append(overlays, ov)
 	}
 	pf := newPrefetcher(repo, overlays, 3)
 	for ci, ct := range rules.Controls {
@@ -195,7 +202,16 @@ func runControls(repo, prop string, pr *rules.Prop, res *core.Result) bool {
 		}
 		o := outcome{Name: ct.Name, File: ct.File, Rule: ct.Rule}
 		abs := filepath.Join(repo, ct.File)
-		src, err := os.ReadFile(abs)
+		ov, err := baseOverlay(repo, verif, rules.ControlBases[ct.Name])
+		if err != nil {
+			o.Result = "skipped: base refactoring " + rules.ControlBases[ct.Name] + " does not apply (" + firstLine(err.Error()) + ")"
+			outs = append(outs, o)
+			continue
+		}
+		src, ok := ov[abs]
+		if !ok {
+			src, err = os.ReadFile(abs)
+		}
 		if err != nil {
 			o.Result = "skipped: file not found"
 			outs = append(outs, o)
@@ -295,6 +311,35 @@ func runControls(repo, prop string, pr *rules.Prop, res *core.Result) bool {
 // (/verif/refactorings/<id>/patch.diff, made by independent agents, each confirmed to build and to keep the
 // pinned test suite green) that touches one of the property's anchor files, on top of the CURRENT content of
 // /repo, and requires the property's rules to report nothing new. Returns true on a false alarm.
+// baseOverlay: the files of the stored refactoring id, patched on top of the current tree (empty map for "").
+func baseOverlay(repo, verif, id string) (map[string][]byte, error) {
+	ov := map[string][]byte{}
+	if id == "" {
+		return ov, nil
+	}
+	data, err := os.ReadFile(filepath.Join(verif, "refactorings", id, "patch.diff"))
+	if err != nil {
+		return nil, err
+	}
+	fps, err := udiff.Parse(string(data))
+	if err != nil {
+		return nil, err
+	}
+	for _, fp := range fps {
+		abs := filepath.Join(repo, fp.Path)
+		src, err := os.ReadFile(abs)
+		if err != nil {
+			return nil, err
+		}
+		patched, err := udiff.Apply(string(src), fp)
+		if err != nil {
+			return nil, err
+		}
+		ov[abs] = []byte(patched)
+	}
+	return ov, nil
+}
+
 func runRefactorings(repo, verif, prop string, pr *rules.Prop, res *core.Result) bool {
 	type outcome struct {
 		ID, Result string
